@@ -172,6 +172,8 @@ pub enum Effect {
     GetVar { var: usize },
     ReadObs { obs: usize },
     Observe { node: usize },
+    /// observe a node and subscribe to the new observer at once (from inside a callback)
+    ObserveSub { node: usize },
     DropObs { obs: usize, clone: usize },
     Disallow { obs: usize },
     /// disallow the observer this handler belongs to (handlers only)
